@@ -113,3 +113,91 @@ func markedNull(v cty.Value) bool {
 	}
 	return false
 }
+
+// denull replaces every null inside v by a non-null value of its type (marks kept where they are); changed
+// reports whether anything was replaced.
+func denull(v cty.Value) (out cty.Value, changed bool) {
+	if v == cty.NilVal {
+		return v, false
+	}
+	u, marks := v.Unmark()
+	defer func() {
+		if len(marks) > 0 {
+			out = out.WithMarks(marks)
+		}
+	}()
+	ty := u.Type()
+	if !u.IsKnown() {
+		return u, false
+	}
+	if u.IsNull() {
+		return zeroOf(ty), true
+	}
+	switch {
+	case ty.IsListType() || ty.IsSetType() || ty.IsTupleType():
+		var els []cty.Value
+		for it := u.ElementIterator(); it.Next(); {
+			_, ev := it.Element()
+			d, c := denull(ev)
+			changed = changed || c
+			els = append(els, d)
+		}
+		if !changed || len(els) == 0 {
+			return u, false
+		}
+		switch {
+		case ty.IsListType():
+			return cty.ListVal(els), true
+		case ty.IsSetType():
+			return cty.SetVal(els), true
+		default:
+			return cty.TupleVal(els), true
+		}
+	case ty.IsMapType() || ty.IsObjectType():
+		m := map[string]cty.Value{}
+		for it := u.ElementIterator(); it.Next(); {
+			k, ev := it.Element()
+			d, c := denull(ev)
+			changed = changed || c
+			m[k.AsString()] = d
+		}
+		if !changed || len(m) == 0 {
+			return u, false
+		}
+		if ty.IsMapType() {
+			return cty.MapVal(m), true
+		}
+		return cty.ObjectVal(m), true
+	}
+	return u, false
+}
+
+func zeroOf(ty cty.Type) cty.Value {
+	switch {
+	case ty == cty.String || ty == cty.DynamicPseudoType:
+		return cty.StringVal("z")
+	case ty == cty.Number:
+		return cty.NumberIntVal(7)
+	case ty == cty.Bool:
+		return cty.True
+	case ty.IsListType():
+		return cty.ListValEmpty(ty.ElementType())
+	case ty.IsSetType():
+		return cty.SetValEmpty(ty.ElementType())
+	case ty.IsMapType():
+		return cty.MapValEmpty(ty.ElementType())
+	case ty.IsTupleType():
+		var els []cty.Value
+		for _, et := range ty.TupleElementTypes() {
+			els = append(els, zeroOf(et))
+		}
+		return cty.TupleVal(els)
+	case ty.IsObjectType():
+		m := map[string]cty.Value{}
+		for k, at := range ty.AttributeTypes() {
+			m[k] = zeroOf(at)
+		}
+		return cty.ObjectVal(m)
+	}
+	return cty.StringVal("z")
+}
